@@ -235,7 +235,8 @@ def run(chk: core.Check):
     chk.evaluations += len(docs)
     chk.clause("T3.document", len(docs))
     chk.assumptions += ["'content' of a string = its source value with one enclosing layer removed (the default stack strips after resolving)",
-                        "resolution is one level (a string whose value names another string yields that name)"]
+                        "resolution is one level (a string whose value names another string yields that name)",
+                        "what a document's own blocks become does not depend on an unrelated, already parsed entry in the library it is parsed into"]
 
 
 def replay(rec, chk):
